@@ -23,5 +23,8 @@ def run(run_, tier):
     run_.replay_for("", lambda w: {"script": "c07_flows.py", "args": [json.dumps(w or {})], "timeout": 600})
     n = symla_systems.run_cases(run_, "c07_cases")
     run_.notes.append(f"{n} system x metric configurations")
+    # Engine D: the Euclidean drift for ALL dimensions and every metric object satisfying the matrix contract
+    from . import generic_systems
+    generic_systems.run_generic_systems(run_, keep=lambda oid: any(t in oid for t in ("h2_flow", "h2-conserved", "dh2_flow_dmom", "metric-inverse")))
     # the kick uses dh1_dpos and the drift dh2_dmom: that these are the gradients of the components is C05's obligation, imported here
     symla_systems.run_cases(run_, "c05_cases", keep=lambda oid: any(k in oid for k in ("dh1_dpos-is-gradient-of-h1", "dh2_dmom-is-gradient-of-h2", "dh2_dpos-is-gradient-of-h2")))
